@@ -1,2 +1,2 @@
 import Driver.Flagsx
-def main : IO Unit := Driver.run (Driver.Index.withExt Driver.Flagsx.handle) {}
+def main : IO Unit := Driver.run Driver.Flagsx.step {}
